@@ -89,6 +89,20 @@ class ConcHistory(histories.History):
         self.sim.start_injector(body, b"Fs@x.test\0Tr@local.test\0\0", role)
         self.log.append(("suspended-injector", role, state))
 
+    def backlog(self, n):
+        """the daemon was down for more than 36 hours with a backlog: n messages queued (S4), everything about
+        them older than the garbage-collection horizon"""
+        sim = self.sim
+        now = sim.vnow()
+        for i in range(n):
+            self.nmsg += 1
+            st, num = sim.inject(b"Subject: backlog %d\nX-Token: bl%04d\n\nold\n" % (i, i), b"Fs@local.test\0Tbl%d@local.test\0\0" % i)
+            if num is None:
+                continue
+            for p in (sim.qpath("mess", str(num % qsim.SPLIT), str(num)), sim.qpath("intd", str(num)), sim.qpath("todo", str(num))):
+                os.utime(p, (now - 144000, now - 144000))
+        self.log.append(("backlog", n))
+
     def plant(self):
         """leftovers of dead injectors with chosen ages, and pid files"""
         sim, rng = self.sim, self.rng
@@ -119,6 +133,8 @@ class ConcHistory(histories.History):
         try:
             if self.gc:
                 self.plant()
+            if getattr(p, "backlog", 0):
+                self.backlog(p.backlog)
             sim.start_daemons()
             if self.gc:
                 for stt in rng.sample(["S2", "S3"], rng.randint(1, 2)):
